@@ -108,8 +108,9 @@ def check_outcome(cls, fam, kind, n, res):
             if st != "ok" or v != want or (want != "MASK" and (not isinstance(v, int) or isinstance(v, bool))):
                 bad(f"value is {v!r}, expected {want!r}")
         else:
-            if st != "ok" or (isinstance(v, int) and not isinstance(v, bool)) or v is None and False:
-                bad(f"value is {v!r} for a missing/garbled answer; expected a non-integer marker")
+            # the marker must be distinguishable from every reading of a clean frame (integers and "MASK")
+            if st != "ok" or (isinstance(v, int) and not isinstance(v, bool)) or v == "MASK":
+                bad(f"value is {v!r} for a missing/garbled answer; expected a non-integer marker that no clean frame yields")
     elif fam == "bitmap":
         bits = list(cls.bits)
         try:
